@@ -13,6 +13,7 @@ from .. import common, solvex, cfgs, monitors as mon
 
 LEVEL = "exploration"
 MOD = "C01"
+SITE_EXEMPT = {}     # evaluation sites this check cannot reach (site -> reason); see solvex.site_floor
 
 RHOBEG = 0.1
 PAIRS = [(-1.0 / 3.0, 0.9), (0.1, 1.7), (-2.0, 0.3 + 0.6)]
@@ -122,7 +123,7 @@ def _configs(tier, salts):
         if salt == 0 or tier == "thorough":
             e = [0.0, 1e-3, -7e-4, 3e-3, 1.3e-3, -2.1e-3, 5e-4, -1e-3][salt % 8]
             for name, cfg in cfgs.broad_cfgs(salt=salt, budgets=(30, 70), reg_budgets=(10,)):
-                if cfg.get("lo") is None and cfg.get("hi") is None and not cfg.get("sets"):
+                if cfg.get("lo") is None and cfg.get("hi") is None and not cfg.get("sets") and cfg.get("rhobeg", 0.3) <= 0.6:
                     n = len(cfg["x0"])
                     cfg["lo"] = [(-1.0 / 3.0 + e) * 4, 0.1 + e, -2.0][:n] if n > 1 else [-1.0 / 3.0 + e]
                     cfg["hi"] = [0.9 + e, 1.7 + e, 0.3 + 0.6][:n] if n > 1 else [2.5]
@@ -258,6 +259,7 @@ def run(report, tier, seed):
     salts = common.salts_for(tier, seed)
     cps = _configs(tier, salts)
     res = solvex.explore(report, MOD, cps, classify=classify)
+    solvex.site_floor(report, res["tags"], exempt=SITE_EXEMPT)
     _component_layer(report, tier, salts)
     tags = res["tags"]
     cov = report.coverage
